@@ -44,6 +44,28 @@ def oob_histories():
     return hs
 
 
+def ids_cycle_world():
+    """a cycle entered through a long acyclic prefix of *younger* targets, after enough unrelated targets were built
+    that database ids have two digits (a cycle member with a small id below ancestors with larger ids)"""
+    rules = {"core.do": [S(deps=["gen"])], "gen.do": [S(deps=["s"], out="file"), S(deps=["core"], out="file", tag="cyclic")],
+             "app.do": [S(deps=["st3"])], "st3.do": [S(deps=["st2"])], "st2.do": [S(deps=["st1"], out="file")],
+             "st1.do": [S(deps=["core"])]}
+    libs = ["lib%d" % i for i in range(1, 8)]
+    for l in libs:
+        rules[l + ".do"] = [S(deps=["s"])]
+    return World("cyc-ids", {"s": ["0", "1"]}, rules, ["app", "st3", "st2", "st1", "core", "gen"] + libs, ["app"]), libs
+
+
+def ids_histories():
+    w, libs = ids_cycle_world()
+    pre = [["ifchange", ["core"]], ["ifchange", libs], ["ifchange", ["app"]], ["dovar", "gen.do", 1]]
+    hs = []
+    for entry in ("app", "st1", "core", "gen"):
+        for cmd in ("ifchange", "redo"):
+            hs.append(pre + [[cmd, [entry], {}]])
+    return hs
+
+
 def all_worlds(maxL=4, maxP=2):
     out = {}
     for L in range(1, maxL + 1):
@@ -67,6 +89,8 @@ def step_check(proj, i, obs):
     entries = [t for t in op[1] if t != "sib"]
     if proj.w.name == "cyc-oob" and m.variant.get("d.do") == 0:
         return oracles.check_exit(proj, obs)    # the graph is still acyclic here
+    if proj.w.name == "cyc-ids" and m.variant.get("gen.do") == 0:
+        return oracles.check_exit(proj, obs)
     out.append(e1prop.stat("commands-entering-a-cycle"))
     if obs["rc"] == -999:
         return out   # watchdog already reported by the explorer as a violation of termination
@@ -143,6 +167,7 @@ def main(tier):
     W = all_worlds(4 if tier == "thorough" else 3, 2 if tier == "thorough" else 1)
     plan = [(w, histories(w), 0) for w in W.values()]
     plan.append((oob_cycle_world(), oob_histories(), 0))
+    plan.append((ids_cycle_world()[0], ids_histories(), 0))
     rc1 = e1prop.run_property(
         PID, tier, plan, "rv.props.c12", explore_opts={"all_steps": True},
         rule="generated cyclic worlds: cycle length L in 1..4 (quick 1..3), acyclic prefix of length 0..2 (quick 0..1), with/without an "
@@ -171,6 +196,7 @@ def replay(path):
         return e2prop.replay(PID, sc, e2_oracle, path)
     W = all_worlds()
     W["cyc-oob"] = oob_cycle_world()
+    W["cyc-ids"] = ids_cycle_world()[0]
     bindir = common.build_subject()
     key, viols, summ = replay_history(W[doc["world"]], doc["history"], step_check, bindir=bindir)
     common.cleanup_scratch()
